@@ -141,7 +141,9 @@ def build():
     v.set_sig('R11', 'fn verify_batch_circuit<EF: FieldX>(circuit: &mut CircuitBuilder<EF>, permutation_config: PermConfig, commitment_cap: &[Vec<Target>], dimensions: &[Dimensions], index_bits: &[Target], '
                      'opened_base_coeffs: &[Vec<Target>], salts: Option<&[Vec<Target>]>) -> Result<Vec<NonPrimitiveOpId>, CircuitBuilderError>')
     v.rewrite_re('R11', r'let permutation_config: PermConfig = permutation_config\.into\(\);', '', min_count=1)
-    v.rewrite_re('R8', r'CircuitBuilderError::WrongBatchSize \{\s*expected: ([^,]+),\s*got: ([^,}]+),?\s*\}', r'CircuitBuilderError::wrong_batch_size(\1, \2)', min_count=2)
+    v.rewrite_re('R8', r'CircuitBuilderError::WrongBatchSize \{\s*expected: ([^,]+),\s*got: ([^,}]+),?\s*\}', r'CircuitBuilderError::wrong_batch_size(\1, \2)', min_count=0)
+    # R9: a debug assertion is a panic in debug builds: it must be provable from what the function has checked so far
+    v.rewrite_re('R9', r'debug_assert_eq!\(\s*([^,;]+?),\s*([^,;]+?),\s*"[^"]*"\s*,?\s*\);', r'assert(\1 == \2); // @@A:a_debug_assertion_cannot_fail\n', min_count=0, flags_dotall=True)
     normalize_let_chains(v)
     v.rewrite_re('R9', r'assert!\(\s*!commitment_cap\.is_empty\(\),\s*"[^"]*"\s*,?\s*\);', 'assert(!(commitment_cap.len() == 0));', min_count=1)
     v.rewrite_re('R6', r'&(\w+)\[\.\.([^\]]+)\]', r'slice_subrange(\1, 0, \2)', min_count=0)
